@@ -59,6 +59,9 @@ func (p c02) Gen(c *run.Ctx, idx int) (json.RawMessage, error) {
 	if idx%3 == 0 {
 		prof.PVar, prof.PVarDefault, prof.PArgsAlways = 0.7, 0.3, true
 	}
+	if idx%10 == 3 {
+		prof.PVar, prof.PVarNamedID = 0.6, 0.7
+	}
 	if r.Intn(6) == 0 && cu.mono.Mutation != nil {
 		prof.Kind = ast.Mutation
 	}
@@ -71,6 +74,48 @@ func (p c02) Gen(c *run.Ctx, idx int) (json.RawMessage, error) {
 		cfg.Merger = "sanitize"
 	}
 	return mustJSON(opCase{U: cu.spec, Cfg: cfg, Op: *op, UIdx: uidx}), nil
+}
+
+// gatewayOwnID reports whether $id in a sub-request is only the gateway's lookup variable:
+// the sub-request is rooted at node(id: $id) and $id occurs nowhere else in it.
+func gatewayOwnID(op *ast.OperationDefinition) bool {
+	if len(op.SelectionSet) != 1 {
+		return false
+	}
+	root, ok := op.SelectionSet[0].(*ast.Field)
+	if !ok || root.Name != "node" || len(root.Arguments) != 1 || root.Arguments[0].Value == nil || root.Arguments[0].Value.Kind != ast.Variable || root.Arguments[0].Value.Raw != "id" {
+		return false
+	}
+	uses := 0
+	var walk func(set ast.SelectionSet)
+	walk = func(set ast.SelectionSet) {
+		for _, sel := range set {
+			switch x := sel.(type) {
+			case *ast.Field:
+				for _, a := range x.Arguments {
+					if usesVarNamed(a.Value, "id") {
+						uses++
+					}
+				}
+				for _, d := range x.Directives {
+					for _, a := range d.Arguments {
+						if usesVarNamed(a.Value, "id") {
+							uses++
+						}
+					}
+				}
+				walk(x.SelectionSet)
+			case *ast.InlineFragment:
+				walk(x.SelectionSet)
+			case *ast.FragmentSpread:
+				if x.Definition != nil {
+					walk(x.Definition.SelectionSet)
+				}
+			}
+		}
+	}
+	walk(op.SelectionSet)
+	return uses == 1
 }
 
 type coord struct {
@@ -439,8 +484,8 @@ func (p c02) Exec(c *run.Ctx, idx int, raw json.RawMessage) []run.Result {
 		}
 		subVars, _ := validator.VariableValues(ss, sop, nonNilMap(e.Variables))
 		for _, vd := range sop.VariableDefinitions {
-			if vd.Variable == "id" && !tags["f:var-named-id"] {
-				continue
+			if vd.Variable == "id" && (!tags["f:var-named-id"] || gatewayOwnID(sop)) {
+				continue // the gateway's own lookup variable, not the client's
 			}
 			cv, chas := clientVars[vd.Variable]
 			sv, shas := subVars[vd.Variable]
